@@ -200,6 +200,14 @@ def cat(ctx, col):
         col.bad("R-SENT", q, d.loc(mi), "junction nodes are merged iff they coincide (distance between the two junction nodes below the tolerance)",
                 f"the merge / link decision is `{tsrc}`, which does not look at the positions of the two junction nodes: "
                 f"coincident junctions are duplicated (or distinct ones merged)", stmt="merge-test", definite=True)
+    elif any(isinstance(x, ast.Call) and ((isinstance(x.func, ast.Attribute) and x.func.attr in ("min", "any")) or (dotted(x.func) or "").rsplit(".", 1)[-1] in ("min", "amin", "any", "nanmin"))
+             for e_ in expand_names(d, t) for x in ast.walk(e_)) and any(isinstance(x, ast.Call) and (dotted(x.func) or "").rsplit(".", 1)[-1] in ("abs", "absolute", "fabs")
+                                                                         for e_ in expand_names(d, t) for x in ast.walk(e_)):
+        col.rule("R-COINCIDE", "two junction nodes coincide when they agree in ALL coordinates: the merge test is not the smallest per-axis gap (`abs(a - b).min() < eps`, any(...)) -- "
+                 "two planar tracings share z without sharing a point", floor=0)
+        col.bad("R-COINCIDE", q, d.loc(mi), "junction nodes are merged iff they coincide in all coordinates",
+                f"the merge test `{tsrc}` takes the smallest (or any) per-axis gap: junction nodes that agree in one coordinate only (two tracings in the plane z = 0) are taken for the same "
+                f"point, the second tree's junction node is deleted and its children hang on a node far away", stmt="merge-min", definite=True)
     else:
         col.unresolved("R-SENT", q, d.loc(mi), "junction nodes are merged iff they coincide", f"merge test `{tsrc}` not understood", stmt="merge-test")
     def assigns(body):
@@ -310,6 +318,27 @@ def anchored(ctx, col):
                             col.bad("R-REROOT", d.qualname, d.loc(st), "only the types of the old and the new root are exchanged",
                                     f"`{norm_src(st)}` inside `{norm_src(n)[:50]}...` stores the type of every node along the root path: "
                                     f"interior nodes of the path change type", stmt="type-swap", definite=True)
+    # the two root types are EXCHANGED: a tuple assignment to two `.type` targets takes its two values from `.type` of the same two handles, crosswise
+    col.rule("R-TYPESWAP", "re-rooting exchanges the types of the old and the new root: in `a.type, b.type = v1, v2` the values are `b.type, a.type` (not a constant such as types.soma: the "
+             "old root of a neurite cut out of a neuron is no soma)", floor=0)
+    n_sw = 0
+    for st in own_nodes(d):
+        if isinstance(st, ast.Assign) and len(st.targets) == 1 and isinstance(st.targets[0], ast.Tuple) and len(st.targets[0].elts) == 2 and isinstance(st.value, ast.Tuple) and len(st.value.elts) == 2 \
+                and all(isinstance(t_, ast.Attribute) and t_.attr == "type" for t_ in st.targets[0].elts):
+            n_sw += 1
+            (ta, tb), (va, vb) = st.targets[0].elts, st.value.elts
+            crosswise = norm_src(va) == norm_src(tb) and norm_src(vb) == norm_src(ta)
+            consts = [v_ for v_ in (va, vb) if not (isinstance(v_, ast.Attribute) and v_.attr == "type")]
+            if crosswise:
+                col.ok("R-TYPESWAP", d.qualname, d.loc(st), "the two root types are exchanged", norm_src(st), stmt="typeswap")
+            elif consts:
+                col.bad("R-TYPESWAP", d.qualname, d.loc(st), "the two root types are exchanged",
+                        f"`{norm_src(st)}` gives one of the two roots `{norm_src(consts[0])}` instead of the other root's type: re-rooting a tree whose root is not a soma (a dendrite from "
+                        f"get_neurites(), a subtree) turns its new root into a soma, and re-rooting back does not restore the types", stmt="typeswap", definite=True)
+            else:
+                col.unresolved("R-TYPESWAP", d.qualname, d.loc(st), "the two root types are exchanged", f"`{norm_src(st)}`: not a crosswise exchange, values not recognised", stmt="typeswap")
+    if not n_sw:
+        col.unresolved("R-TYPESWAP", d.qualname, d.loc(), "the two root types are exchanged", "no two-target `.type` assignment in redirect_tree", stmt="typeswap")
     c = repo.get_def(f"{TU}.cat_tree")
     col.text_group("R-CAT", c.qualname, c, [
         ("both inputs are copied", ["tree, tree2 = tree1.copy(), tree2.copy()"], "copies"),
